@@ -56,7 +56,8 @@ def op_combine(e1, e2, v1, v2):
 
 
 def same_mesh(e1, e2):
-    return e1["L"] == e2["L"] and all(list(map(tuple, a)) == list(map(tuple, b)) for a, b in zip(e1["boxes"], e2["boxes"])) \
+    """same boxes on the levels both have (the deeper one is then opened with limit_level = the shallower one's depth)"""
+    return all(list(map(tuple, a)) == list(map(tuple, b)) for a, b in zip(e1["boxes"], e2["boxes"])) \
         and e1["ndims"] == 3 and e2["ndims"] == 3
 
 
@@ -97,9 +98,12 @@ def apply_op(kind, states, cur, wd, step, rng, fails):
         p2, e2 = states[j]
         v1 = rng.choice([None, exp["names"][:1]])
         v2 = rng.choice([None, [n for n in e2["names"] if n not in (v1 or exp["names"])][:1] or None])
-        desc = f"combine(current, state{j}, vars1={v1}, vars2={v2})"
-        new, s1, s2 = op_combine(exp, e2, v1, v2)
-        combine(PlotfileCooker(path), PlotfileCooker(p2), pltout=out, vars1=v1, vars2=v2)
+        Lm = min(exp["L"], e2["L"])
+        l1 = Lm if exp["L"] > Lm else rng.choice([None, Lm])
+        l2 = Lm if e2["L"] > Lm else rng.choice([None, Lm])
+        desc = f"combine(PlotfileCooker(current, limit_level={l1}), PlotfileCooker(state{j}, limit_level={l2}), vars1={v1}, vars2={v2})"
+        new, s1, s2 = op_combine(op_colander(exp, ["all"], Lm), op_colander(e2, ["all"], Lm), v1, v2)
+        combine(PlotfileCooker(path, limit_level=l1), PlotfileCooker(p2, limit_level=l2), pltout=out, vars1=v1, vars2=v2)
         return out, new, desc
     raise ValueError(kind)
 
@@ -170,6 +174,27 @@ def run_pipeline_scenario(p, wd):
                 taste_ok(back, fails, "cook+combine result")
         except Exception as e:      # noqa
             fails.append({"what": "corollary pipeline raised", "call": "colander(all) / chef -> combine", "detail": f"{type(e).__name__}: {str(e)[:140]}"})
+        # a level-limited descendant combined back into its ancestor (opened with the same level limit), then used again
+        for lim in range(root["L"]):
+            checks += 1
+            call = f"colander([{names[-1]}], limit_level={lim}) -> combine(PlotfileCooker(ancestor, limit_level={lim}), strained) -> colander(all)"
+            try:
+                st = os.path.join(wd, f"lim{lim}_strained")
+                Colander(plotfile=path, limit_level=lim, output=st, variables=[names[-1]]).strain()
+                back = os.path.join(wd, f"lim{lim}_back")
+                combine(PlotfileCooker(path, limit_level=lim), PlotfileCooker(st), pltout=back, vars1=names[:1], vars2=None)
+                exp, _, _ = op_combine(op_colander(root, ["all"], lim), op_colander(root, [names[-1]], lim), names[:1], None)
+                n0 = len(fails)
+                compare_plotfile(back, exp, fails, "level-limited descendant combined with its ancestor differs from the composed operations")
+                if len(fails) == n0:
+                    taste_ok(back, fails, "limited combine result")
+                    again = os.path.join(wd, f"lim{lim}_again")
+                    Colander(plotfile=back, output=again, variables=["all"]).strain()
+                    compare_plotfile(again, exp, fails, "straining the limited combine result is not the identity")
+                for f in fails[n0:]:
+                    f["call"] = call
+            except Exception as e:      # noqa
+                fails.append({"what": "tool raised on the output of a previous tool", "call": call, "detail": f"{type(e).__name__}: {str(e)[:140]}"})
     return {"fails": fails[:20], "checks": checks}
 
 
